@@ -192,6 +192,7 @@ func checkC19(c *ev.Ctx) {
 	bools := []bool{false, true}
 	prinLists := [][]string{nil, {}, {"a"}, {"a", "b"}, {""}}
 	n := 0
+	var all []c19Case
 	for _, ff := range bools {
 		for _, hw := range bools {
 			for _, hl := range bools {
@@ -204,6 +205,7 @@ func checkC19(c *ev.Ctx) {
 										for _, tid := range []string{"0a1b2c3d4e", "", "ü-\"x"} {
 											k := c19Case{FF: ff, HW: hw, HL: hl, NC: nc, Touch: touch, Usage: usage, Ver: ver, Crit: crit, Prins: pl, PrinsNil: pi == 0, TransID: tid}
 											c19Run(c, k)
+											all = append(all, k)
 											n++
 											if n%9973 == 0 {
 												c.Sample(k)
@@ -233,4 +235,9 @@ func checkC19(c *ev.Ctx) {
 		}
 	}
 	c19Run(c, c19Case{NilCert: true, Prins: []string{"a"}})
+	// second pass in a stride order: the function must not depend on what it was asked before (caches, pooled objects)
+	for i := 0; i < len(all); i++ {
+		c19Run(c, all[(i*7919)%len(all)])
+	}
+	c.Set("second_pass_in_stride_order", len(all))
 }
